@@ -78,7 +78,8 @@ def install_hooks(Wd, cfg, A, mk, assume, cap):
         cap['k'] = k; cap['stop'] = stop
         yield k
         raise Cut('second iteration')
-    def vp_havoc(which, loc):
+    def vp_havoc(which, loc, names):
+        from vp.pysym.loader import havoc_result
         if which != 'conelp': raise RuntimeError('unexpected havoc site ' + which)
         for nm in ('x', 'y', 's', 'z'):
             m = loc[nm]
@@ -93,7 +94,10 @@ def install_hooks(Wd, cfg, A, mk, assume, cap):
                         'y': [num(loc['y'][i]) for i in range(len(loc['y']))]}
         g = O.sdot(A, s, z, dims, 0) / (num(tau)*num(tau))                                # I2
         gap = wrap_num(Wd, g)
-        return tau, kappa, gap
+        vals = {'tau': tau, 'kappa': kappa, 'gap': gap}
+        extra = cap.get('havoc_extra')
+        if extra is not None: vals.update(extra(loc))
+        return havoc_result(loc, names, vals)
     def vp_ret(val, loc):
         cap['locals'] = dict(loc)
         return val
